@@ -170,7 +170,8 @@ J gen_hostile_cli(uint64_t seed, const J &ov)
 	std::string focus = ov.gets("focus", "");
 	if (focus.empty()) { static const char *f[] = {"any", "any", "login", "handshake", "tunnel"}; focus = f[r.range(0, 4)]; }
 	h.set("focus", focus);
-	h.set("p", focus == "login" ? 1.0 : 0.02 + r.uniform() * 0.3);
+	h.set("p", focus == "login" ? 1.0 : focus == "spoof" ? 0.0 : 0.02 + r.uniform() * 0.3);
+	if (focus == "spoof") { J &c0 = cl.a[0]; c0.set("raw", false); if (c0.gets("qtype").empty() && r.chance(0.8)) c0.set("qtype", "NULL"); cfg.set("clients", cl); }
 	h.set("keep_orig", r.chance(0.5));     // also deliver the genuine answer afterwards (racing spoofer) or suppress it (on-path)
 	h.set("key", (long long)(r.next() >> 1));
 	// fragment flood: from some tunnel answer on, every answer becomes the next fragment (same seqno, ascending numbers, no last
@@ -179,10 +180,12 @@ J gen_hostile_cli(uint64_t seed, const J &ov)
 	cfg.set("hostile", h);
 	// off-path spoofers: forged answers from the server's address to the client's port
 	int nsp = (int)(r.chance(0.5) ? 0 : r.range(5, 80));
+	if (focus == "spoof") nsp = (int)r.range(50, 400);
 	for (int i = 0; i < nsp; i++) {
 		J op = J::obj();
 		op.set("ref", "abs");
-		op.set("t", (long long)((0.1 + r.uniform() * 20) * 1e6));
+		op.set("t", (long long)((0.1 + r.uniform() * (focus == "spoof" ? 38 : 20)) * 1e6));
+		if (focus == "spoof") op.set("unmatched", true);
 		op.set("op", "dgram"); op.set("from", "atk0"); op.set("from_ip", "10.9.2.1"); op.set("to", "c0"); op.set("dport", "auto");
 		op.set("spoof_ip", "10.9.0.1"); op.set("sport", 53);
 		Bytes q = dns_build_query((uint16_t)r.range(0, 65535), std::string(1, "pPvVlLyYzZrRnNoOsSiI0a"[r.range(0, 21)]) + "abc." + dom, QT_NULL, false);
@@ -263,6 +266,14 @@ World *build_hostile_cli(const J &plan)
 	w->add(mk_probes(w));
 	w->add(new SystemArgs(w));
 	const J &h = w->cfg["hostile"];
+	if (h.gets("focus") == "spoof") {
+		// only off-path answers that match none of the client's queries, on an otherwise clean path: they must be ignored, i.e.
+		// the handshake completes and both tun streams are exact (C06, last clause)
+		w->add(mk_c01_integrity(w));
+		w->add(mk_c02_delivery(w, true, false, "C06"));
+		World *w2 = w;
+		w->result_hooks.push_back([w2](J &) { if (!w2->S.capped && !w2->all_in_tunnel) w2->S.violations.push_back({"C06", "spoof.handshake_failed", "the client did not reach tunnel mode although only unmatched off-path answers were injected on a clean path"}); });
+	}
 	std::string focus = h.gets("focus", "any");
 	double p = h.getd("p", 0.1);
 	bool keep = h.getb("keep_orig");
